@@ -29,11 +29,22 @@ structure PCtx where
   version : Nat
   fp : Bool := false
   dyn : Bool := false
+  strict : Bool := false
 
 def PCtx.ign (P : PCtx) : List Nat := ignOf P.fp P.p
 
-/-- the permitted deviations: the stack limit, and with run-time addressed slots the range check -/
-def PCtx.dev (P : PCtx) : Fail → Prop := if P.dyn then devDyn else devOvf
+/-- the by-reference discipline is in force (scratch-slot convention only) -/
+def PCtx.sref (P : PCtx) : Bool := P.strict && !P.fp
+
+/-- the permitted deviations: the stack limit, and with run-time addressed slots outside the
+    by-reference discipline the range check -/
+def PCtx.dev (P : PCtx) : Fail → Prop := if P.dyn && !P.sref then devDyn else devOvf
+
+/-- the slots the invariants on the source world look at -/
+def PCtx.prot (P : PCtx) : List Nat := if P.sref then allRefSlots P.p else P.ign
+
+/-- by-reference discipline: the reference cells of the active routines `A` are valid -/
+def PCtx.vinv (P : PCtx) (A : List Nat) : World → Prop := if P.sref then VSet P.p A else noInv
 
 theorem PCtx.dev_ovf (P : PCtx) : P.dev ovfF := by
   unfold PCtx.dev
@@ -64,7 +75,7 @@ def prologue (fp : Bool) (sd : SubDef) : List Instr :=
 structure SubOK (P : PCtx) (f : Nat) (sd : SubDef) : Prop where
   look : ∃ G sf bs, P.Pg.subs.lookup (subLabel f) = some (G, sf) ∧ Blk G sf (prologue P.fp sd) (.next bs) ∧
     ShapeR G (subCfg P sd) (wrapBody sd) bs 0 none
-  wt : wtR (subK P.fp P.p sd P.dyn) false true (if sd.hasRet then 1 else 0) sd.body = true
+  wt : wtR (subK P.fp P.p sd P.dyn P.strict) false true (if sd.hasRet then 1 else 0) sd.body = true
   pnodup : (sd.params.map (·.2)).Nodup
   p256 : P.fp = false → ∀ kv ∈ sd.params, kv.2 < 256
   pval : P.fp = true → ∀ kv ∈ sd.params, kv.1 = ParamKind.val
@@ -89,19 +100,20 @@ def pInv (sd : SubDef) (st : List Val) : World → Prop :=
 /-- a routine activation of the program: its machine context, generator configuration, typing
     context and the `cur` field of the source environment -/
 inductive RoutOK (P : PCtx) : MCtx → RCfg → RK → Option Nat → Prop
-  | main {X : MCtx} : X.Pg = P.Pg → X.r = none → X.ign = P.ign → X.inv = noInv → X.base = [] → X.dev = P.dev →
-      RoutOK P X (mainCfg P) (mainK P.fp P.p P.dyn) none
+  | main {X : MCtx} : X.Pg = P.Pg → X.r = none → X.ign = P.ign → X.inv = P.vinv X.act → X.base = [] → X.dev = P.dev →
+      X.prot = P.prot →
+      RoutOK P X (mainCfg P) (mainK P.fp P.p P.dyn P.strict) none
   | sub {X : MCtx} {f : Nat} {sd : SubDef} {fr : GFrame} {cs' : List GFrame} : X.Pg = P.Pg → P.fp = false →
       findSub P.p f = some sd → X.r = some (subLabel f) → X.cs = fr :: cs' → fr.proto = none →
-      X.ign = P.ign → X.inv = noInv → X.dev = P.dev →
-      RoutOK P X (subCfg P sd) (subK P.fp P.p sd P.dyn) (some f)
+      X.ign = P.ign → X.inv = P.vinv X.act → X.dev = P.dev → X.prot = P.prot → f ∈ X.act →
+      RoutOK P X (subCfg P sd) (subK P.fp P.p sd P.dyn P.strict) (some f)
   | subFp {X : MCtx} {f : Nat} {sd : SubDef} {fr : GFrame} {cs' : List GFrame} {st σc : List Val} :
       X.Pg = P.Pg → P.fp = true →
       findSub P.p f = some sd → X.r = some (subLabel f) → X.cs = fr :: cs' →
       fr.proto = some (sd.params.length, if sd.hasRet then 1 else 0) →
       X.base = st ++ σc → st.length = sd.params.length → fr.height = X.base.length →
-      X.ign = P.ign → X.inv = pInv sd st → X.dev = P.dev →
-      RoutOK P X (subCfg P sd) (subK P.fp P.p sd P.dyn) (some f)
+      X.ign = P.ign → X.inv = pInv sd st → X.dev = P.dev → X.prot = P.prot →
+      RoutOK P X (subCfg P sd) (subK P.fp P.p sd P.dyn P.strict) (some f)
 
 theorem RoutOK.pg {P : PCtx} {X cfg K cur} (h : RoutOK P X cfg K cur) : X.Pg = P.Pg := by
   cases h <;> assumption
@@ -112,31 +124,150 @@ theorem RoutOK.ign {P : PCtx} {X cfg K cur} (h : RoutOK P X cfg K cur) : X.ign =
 theorem RoutOK.callees {P : PCtx} {X cfg K cur} (h : RoutOK P X cfg K cur) : cfg.callees = calleesOf P.p := by
   cases h <;> rfl
 
+/-! projections of the typing contexts -/
+theorem mainK_callees {fp p dyn strict} : (mainK fp p dyn strict).callees = calleesOf p := by
+  unfold mainK; split <;> rfl
+theorem subK_callees {fp p sd dyn strict} : (subK fp p sd dyn strict).callees = calleesOf p := by
+  unfold subK; split; rfl; split <;> rfl
+theorem mainK_dyn {fp p dyn strict} : (mainK fp p dyn strict).dyn = dyn := by
+  unfold mainK; split <;> rfl
+theorem subK_dyn {fp p sd dyn strict} : (subK fp p sd dyn strict).dyn = dyn := by
+  unfold subK; split; rfl; split <;> rfl
+theorem subK_rv {fp p sd dyn strict} : (subK fp p sd dyn strict).rv = sd.hasRet := by
+  unfold subK; split; rfl; split <;> rfl
+theorem mainK_ign {fp p dyn strict} : (mainK fp p dyn strict).ign = ignOf fp p := by
+  unfold mainK
+  split
+  · rename_i h
+    simp only [Bool.and_eq_true, Bool.not_eq_true'] at h
+    rw [h.2]; rfl
+  · rfl
+theorem subK_ign {fp p sd dyn strict} : (subK fp p sd dyn strict).ign = ignOf fp p := by
+  unfold subK
+  split
+  · rename_i h; rw [h]; rfl
+  · rename_i h
+    have : fp = false := by simpa using h
+    rw [this]
+    split <;> rfl
+
+theorem mainK_own {fp p dyn strict} : (mainK fp p dyn strict).own = [] := by
+  unfold mainK; split <;> rfl
+theorem subK_own_false {p sd dyn strict} : (subK false p sd dyn strict).own = [] := by
+  unfold subK; simp only [Bool.false_eq_true, if_false]; split <;> rfl
+
+theorem PCtx.sref_iff (P : PCtx) : P.sref = true ↔ P.strict = true ∧ P.fp = false := by
+  simp [PCtx.sref]
+
+/-- under the by-reference discipline the typing contexts are the strict ones -/
+theorem mainK_strict {p dyn} : mainK false p dyn true =
+    { callees := calleesOf p, rv := true, dyn := dyn, strict := true, refAll := allRefSlots p,
+      parAll := allParamSlots p, kinds := kindsOf p, okCalls := some (callsOf p.main) } := rfl
+theorem subK_strict {p sd dyn} : subK false p sd dyn true =
+    { callees := calleesOf p, rv := sd.hasRet, dyn := dyn, strict := true, ref := refSlots sd,
+      refAll := allRefSlots p, parAll := allParamSlots p, kinds := kindsOf p, okCalls := some (callsOf sd.body) } := rfl
+
+/-- outside it they are the plain ones -/
+theorem mainK_strict_false {fp p dyn strict} (h : (strict && !fp) = false) : (mainK fp p dyn strict).strict = false := by
+  unfold mainK; rw [h]; rfl
+theorem subK_strict_false {fp p sd dyn strict} (h : (strict && !fp) = false) : (subK fp p sd dyn strict).strict = false := by
+  unfold subK
+  split
+  · rfl
+  · rename_i hfp
+    have hfp' : fp = false := by simpa using hfp
+    rw [hfp'] at h
+    have : strict = false := by simpa using h
+    rw [this]; rfl
+
 theorem RoutOK.kcallees {P : PCtx} {X cfg K cur} (h : RoutOK P X cfg K cur) : K.callees = calleesOf P.p := by
   cases h with
-  | main => rfl
-  | sub _ hfp => simp only [subK, hfp]; rfl
-  | subFp _ hfp => simp only [subK, hfp]; rfl
+  | main => exact mainK_callees
+  | sub => exact subK_callees
+  | subFp => exact subK_callees
 
 theorem RoutOK.kign {P : PCtx} {X cfg K cur} (h : RoutOK P X cfg K cur) : K.ign = X.ign := by
   cases h with
-  | main _ _ hi => rw [hi]; rfl
-  | sub _ hfp _ _ _ _ hi => rw [hi]; simp only [subK, hfp, PCtx.ign, ignOf]; rfl
-  | subFp _ hfp _ _ _ _ _ _ _ hi => rw [hi]; simp only [subK, hfp, PCtx.ign, ignOf]; rfl
+  | main _ _ hi => rw [hi]; exact mainK_ign
+  | sub _ hfp _ _ _ _ hi => rw [hi]; exact subK_ign
+  | subFp _ hfp _ _ _ _ _ _ _ hi => rw [hi]; exact subK_ign
 
 theorem RoutOK.dev {P : PCtx} {X cfg K cur} (h : RoutOK P X cfg K cur) : X.dev = P.dev := by
   cases h <;> assumption
 
-theorem RoutOK.kdyn {P : PCtx} {X cfg K cur} (h : RoutOK P X cfg K cur) :
-    K.dyn = true → X.dev rangeL ∧ X.dev rangeS := by
-  have hk : K.dyn = P.dyn := by
+theorem RoutOK.prot {P : PCtx} {X cfg K cur} (h : RoutOK P X cfg K cur) : X.prot = P.prot := by
+  cases h <;> assumption
+
+theorem RoutOK.kdyn {P : PCtx} {X cfg K cur} (h : RoutOK P X cfg K cur) : K.dyn = P.dyn := by
+  cases h with
+  | main => exact mainK_dyn
+  | sub => exact subK_dyn
+  | subFp => exact subK_dyn
+
+theorem RoutOK.kstrict_false {P : PCtx} {X cfg K cur} (h : RoutOK P X cfg K cur) (hs : P.sref = false) :
+    K.strict = false := by
+  cases h with
+  | main => exact mainK_strict_false hs
+  | sub => exact subK_strict_false hs
+  | subFp => exact subK_strict_false hs
+
+/-- with run-time addressed slots: the range failures are permitted deviations, or the by-reference
+    discipline holds -/
+theorem RoutOK.fdyn {P : PCtx} {X cfg K cur} (h : RoutOK P X cfg K cur) :
+    K.dyn = true → K.ign = [] → (X.dev rangeL ∧ X.dev rangeS ∧ X.prot = []) ∨
+      (K.strict = true ∧ ∀ w, X.inv w → ∀ v, v ∈ K.ref → ∃ s, getSlot w.scratch v = .u s ∧ s < 256 ∧ s ∉ X.prot) := by
+  intro hd hI
+  cases hs : P.sref with
+  | false =>
+    refine .inl ?_
+    rw [h.dev, h.prot, PCtx.dev, PCtx.prot, hs, ← h.kdyn, hd, ← h.ign, ← h.kign, hI]
+    exact ⟨.inr (.inl rfl), .inr (.inr rfl), rfl⟩
+  | true =>
+    obtain ⟨hstr, hfp⟩ := P.sref_iff.mp hs
+    refine .inr ?_
     cases h with
-    | main => rfl
-    | sub => unfold subK; split <;> rfl
-    | subFp => unfold subK; split <;> rfl
-  intro hd
-  rw [h.dev, PCtx.dev, ← hk, hd]
-  exact ⟨.inr (.inl rfl), .inr (.inr rfl)⟩
+    | main =>
+      rw [hstr, hfp]
+      exact ⟨rfl, fun w _ v hv => by cases hv⟩
+    | @sub f sd fr cs' _ _ hsd _ _ _ _ hinv _ hprot hact =>
+      rw [hstr, hfp]
+      refine ⟨rfl, fun w hw v hv => ?_⟩
+      rw [hinv, PCtx.vinv, hs] at hw
+      obtain ⟨s, h1, h2, h3⟩ := hw f hact sd hsd v hv
+      refine ⟨s, h1, h2, ?_⟩
+      rw [hprot, PCtx.prot, hs]
+      exact fun hh => h3 (allRefSlots_params hh)
+    | subFp _ hfp' => rw [hfp] at hfp'; cases hfp'
+
+theorem RoutOK.fprot {P : PCtx} {X cfg K cur} (h : RoutOK P X cfg K cur) : K.strict = false → X.prot = X.ign := by
+  intro hk
+  cases hs : P.sref with
+  | false => rw [h.prot, h.ign, PCtx.prot, hs]; rfl
+  | true =>
+    obtain ⟨hstr, hfp⟩ := P.sref_iff.mp hs
+    cases h with
+    | main => rw [hstr, hfp] at hk; cases hk
+    | sub => rw [hstr, hfp] at hk; cases hk
+    | subFp _ hfp' => rw [hfp] at hfp'; cases hfp'
+
+theorem RoutOK.fprotS {P : PCtx} {X cfg K cur} (h : RoutOK P X cfg K cur) :
+    ∀ v, v ∉ K.ign → K.refAll.contains v = false → v ∉ X.prot := by
+  intro v hv hr
+  cases hs : P.sref with
+  | false => rw [h.prot, PCtx.prot, hs, ← h.ign, ← h.kign]; exact hv
+  | true =>
+    obtain ⟨hstr, hfp⟩ := P.sref_iff.mp hs
+    rw [h.prot, PCtx.prot, hs]
+    cases h with
+    | main =>
+      rw [hstr, hfp] at hr
+      have hr' : (allRefSlots P.p).contains v = false := hr
+      simpa using hr'
+    | sub =>
+      rw [hstr, hfp] at hr
+      have hr' : (allRefSlots P.p).contains v = false := hr
+      simpa using hr'
+    | subFp _ hfp' => rw [hfp] at hfp'; cases hfp'
 
 /-- the current routine of an activation has a graph -/
 theorem RoutOK.present {P : PCtx} {X cfg K f} (h : RoutOK P X cfg K (some f)) : Present P f := by
@@ -216,19 +347,33 @@ theorem fpParams_of_param {sd : SubDef} {i : Nat} {v : Var} (h : sd.params[i]? =
 
 theorem RoutOK.facts {P : PCtx} (hP : ProgOK P) {X cfg K cur} (h : RoutOK P X cfg K cur) :
     RFacts P.cx X cfg K := by
-  refine ⟨h.kign, ?_, ?_, ?_, h.kdyn, ?_, ?_⟩
-  · -- the invariant only looks at ignored slots
+  have hvinv : ∀ A, X.prot = P.prot → ∀ w w' : World,
+      (∀ s, s ∈ X.prot → getSlot w'.scratch s = getSlot w.scratch s) → P.vinv A w → P.vinv A w' := by
+    intro A hprot w w' hsame hw
+    unfold PCtx.vinv at hw ⊢
+    cases hs : P.sref with
+    | false => simp only [hs, Bool.false_eq_true, if_false]; trivial
+    | true =>
+      simp only [hs, if_true] at hw ⊢
+      refine hw.congr (fun s hsm => hsame s ?_)
+      rw [hprot, PCtx.prot, hs]; exact hsm
+  refine ⟨h.kign, ?_, ?_, ?_, h.fdyn, h.fprot, h.fprotS, ?_, ?_⟩
+  · -- the invariant only looks at the slots `prot`
     cases h with
-    | main _ _ _ hinv => intro w w' _ _; rw [hinv]; trivial
-    | sub _ _ _ _ _ _ _ hinv => intro w w' _ _; rw [hinv]; trivial
-    | @subFp f sd fr cs' st σc hpg hfp hsd hr hcs hpr hbase hlen hh hign hinv hdev =>
-      have hS := hP f sd hsd (RoutOK.present (.subFp hpg hfp hsd hr hcs hpr hbase hlen hh hign hinv hdev))
+    | main _ _ _ hinv _ _ hprot => intro w w' hsame hw; rw [hinv] at hw ⊢; exact hvinv _ hprot w w' hsame hw
+    | sub _ _ _ _ _ _ _ hinv _ hprot => intro w w' hsame hw; rw [hinv] at hw ⊢; exact hvinv _ hprot w w' hsame hw
+    | @subFp f sd fr cs' st σc hpg hfp hsd hr hcs hpr hbase hlen hh hign hinv hdev hprot =>
+      have hS := hP f sd hsd (RoutOK.present (.subFp hpg hfp hsd hr hcs hpr hbase hlen hh hign hinv hdev hprot))
       intro w w' hsame hw
       rw [hinv] at hw ⊢
       intro pr hpr
       have hmem : pr.1 ∈ sd.params.map (·.2) := (List.of_mem_zip hpr).1
       obtain ⟨kv, hkv, hkv2⟩ := List.mem_map.mp hmem
-      have : pr.1 ∈ X.ign := by rw [hign, ← hkv2]; exact hS.pign hfp kv hkv
+      have : pr.1 ∈ X.prot := by
+        rw [hprot, PCtx.prot]
+        have : P.sref = false := by simp [PCtx.sref, hfp]
+        rw [this, ← hkv2]
+        exact hS.pign hfp kv hkv
       rw [hsame pr.1 this]
       exact hw pr hpr
   · cases h <;> rfl
@@ -243,8 +388,8 @@ theorem RoutOK.facts {P : PCtx} (hP : ProgOK P) {X cfg K cur} (h : RoutOK P X cf
     cases h with
     | main => intro v pr hf; cases hf
     | sub _ hfp => intro v pr hf; simp only [subCfg, hfp, Bool.false_eq_true, if_false, List.find?_nil] at hf; cases hf
-    | @subFp f sd fr cs' st σc hpg hfp hsd hr hcs hpr hbase hlen hh hign hinv hdev =>
-      have hS := hP f sd hsd (RoutOK.present (.subFp hpg hfp hsd hr hcs hpr hbase hlen hh hign hinv hdev))
+    | @subFp f sd fr cs' st σc hpg hfp hsd hr hcs hpr hbase hlen hh hign hinv hdev hprot =>
+      have hS := hP f sd hsd (RoutOK.present (.subFp hpg hfp hsd hr hcs hpr hbase hlen hh hign hinv hdev hprot))
       intro v pr hf
       simp only [subCfg, hfp, if_true] at hf
       have hmem := List.mem_of_find?_eq_some hf
@@ -269,10 +414,10 @@ theorem RoutOK.facts {P : PCtx} (hP : ProgOK P) {X cfg K cur} (h : RoutOK P X cf
         exact frameDig_step hcs hpr hbase hlen hh hi hval b blk m hb hops
   · -- an ignored slot the routine may read is one of its frame parameters
     cases h with
-    | main => intro v _ hown; cases hown
-    | sub _ hfp => intro v _ hown; simp only [subK, hfp, Bool.false_eq_true, if_false] at hown; cases hown
-    | @subFp f sd fr cs' st σc hpg hfp hsd hr hcs hpr hbase hlen hh hign hinv hdev =>
-      have hS := hP f sd hsd (RoutOK.present (.subFp hpg hfp hsd hr hcs hpr hbase hlen hh hign hinv hdev))
+    | main => intro v _ hown; rw [mainK_own] at hown; cases hown
+    | sub _ hfp => intro v _ hown; rw [hfp, subK_own_false] at hown; cases hown
+    | @subFp f sd fr cs' st σc hpg hfp hsd hr hcs hpr hbase hlen hh hign hinv hdev hprot =>
+      have hS := hP f sd hsd (RoutOK.present (.subFp hpg hfp hsd hr hcs hpr hbase hlen hh hign hinv hdev hprot))
       intro v _ hown
       simp only [subK, hfp, if_true] at hown
       obtain ⟨kv, hkv, hkv2⟩ := List.mem_map.mp hown
@@ -309,25 +454,26 @@ theorem bindW_scratch (sd : SubDef) (st : List Val) (w1 : World) :
 
 section Callee
 variable (cx : Ctx) (X : MCtx) (cb i : Nat) (st σ' : List Val) (ic : List Nat) (bcs : List Bytes) (w1 : World)
-  (hasRet : Bool)
+  (hasRet : Bool) (Ia : World → Prop)
 
 /-- what the machine does from the `callsub` (stack `st ++ σ'`: arguments, then everything below
-    them) for each result of the callee's body; nothing is claimed about the caller's invariant
-    on the source world at the return point (`case_call` re-establishes it after the restore) -/
+    them) for each result of the callee's body, when the source world at the call satisfies `Ia`;
+    nothing is claimed about the caller's invariant on the source world at the return point
+    (`case_call` re-establishes it after the restore) -/
 def CalleeGoal : Res → World → Prop
   | .ret none, w3 => hasRet = false ∧
-      ReachS X.dev X.ign cx X.Pg X.inv noInv (X.st ⟨cb, i⟩ ⟨st ++ σ', ic, bcs, w1⟩) (X.st ⟨cb, i + 1⟩ ⟨σ', ic, bcs, w3⟩)
+      ReachS X.dev X.ign cx X.Pg Ia noInv (X.st ⟨cb, i⟩ ⟨st ++ σ', ic, bcs, w1⟩) (X.st ⟨cb, i + 1⟩ ⟨σ', ic, bcs, w3⟩)
   | .ret (some v), w3 => hasRet = true ∧
-      ReachS X.dev X.ign cx X.Pg X.inv noInv (X.st ⟨cb, i⟩ ⟨st ++ σ', ic, bcs, w1⟩) (X.st ⟨cb, i + 1⟩ ⟨v :: σ', ic, bcs, w3⟩)
+      ReachS X.dev X.ign cx X.Pg Ia noInv (X.st ⟨cb, i⟩ ⟨st ++ σ', ic, bcs, w1⟩) (X.st ⟨cb, i + 1⟩ ⟨v :: σ', ic, bcs, w3⟩)
   | .vals [], w3 => hasRet = false ∧
-      ReachS X.dev X.ign cx X.Pg X.inv noInv (X.st ⟨cb, i⟩ ⟨st ++ σ', ic, bcs, w1⟩) (X.st ⟨cb, i + 1⟩ ⟨σ', ic, bcs, w3⟩)
+      ReachS X.dev X.ign cx X.Pg Ia noInv (X.st ⟨cb, i⟩ ⟨st ++ σ', ic, bcs, w1⟩) (X.st ⟨cb, i + 1⟩ ⟨σ', ic, bcs, w3⟩)
   | .vals [v], w3 => hasRet = true ∧
-      ReachS X.dev X.ign cx X.Pg X.inv noInv (X.st ⟨cb, i⟩ ⟨st ++ σ', ic, bcs, w1⟩) (X.st ⟨cb, i + 1⟩ ⟨v :: σ', ic, bcs, w3⟩)
+      ReachS X.dev X.ign cx X.Pg Ia noInv (X.st ⟨cb, i⟩ ⟨st ++ σ', ic, bcs, w1⟩) (X.st ⟨cb, i + 1⟩ ⟨v :: σ', ic, bcs, w3⟩)
   | .vals _, _ => False
   | .brk, _ => False
   | .cont, _ => False
-  | .exit v, w3 => HaltS X.dev X.ign cx X.Pg X.inv (X.st ⟨cb, i⟩ ⟨st ++ σ', ic, bcs, w1⟩) (retOut v w3)
-  | .fail f, _ => isUnm f ∨ FailS X.ign cx X.Pg X.inv (X.st ⟨cb, i⟩ ⟨st ++ σ', ic, bcs, w1⟩)
+  | .exit v, w3 => HaltS X.dev X.ign cx X.Pg Ia (X.st ⟨cb, i⟩ ⟨st ++ σ', ic, bcs, w1⟩) (retOut v w3)
+  | .fail f, _ => isUnm f ∨ FailS X.ign cx X.Pg Ia (X.st ⟨cb, i⟩ ⟨st ++ σ', ic, bcs, w1⟩)
 
 end Callee
 
@@ -347,11 +493,11 @@ def BodyRes (cx : Ctx) (X Xf : MCtx) (cb i bs : Nat) (σ' : List Val) (ic : List
   | .fail f, _ => isUnm f ∨ FailS X.ign cx X.Pg Xf.inv (Xf.st ⟨bs, 0⟩ (Xf.onBase ⟨[], ic, bcs, w2⟩))
 
 theorem BodyRes.callee {cx : Ctx} {X Xf : MCtx} {cb i bs : Nat} {st σ' : List Val} {ic bcs} {w1 w2 : World}
-    {hasRet : Bool} {r3 : Res} {w3 : World}
-    (pre : ReachS X.dev X.ign cx X.Pg X.inv Xf.inv (X.st ⟨cb, i⟩ ⟨st ++ σ', ic, bcs, w1⟩)
+    {hasRet : Bool} {r3 : Res} {w3 : World} {Ia : World → Prop}
+    (pre : ReachS X.dev X.ign cx X.Pg Ia Xf.inv (X.st ⟨cb, i⟩ ⟨st ++ σ', ic, bcs, w1⟩)
       (Xf.st ⟨bs, 0⟩ (Xf.onBase ⟨[], ic, bcs, w2⟩)))
     (h : BodyRes cx X Xf cb i bs σ' ic bcs w2 hasRet r3 w3) :
-    CalleeGoal cx X cb i st σ' ic bcs w1 hasRet r3 w3 := by
+    CalleeGoal cx X cb i st σ' ic bcs w1 hasRet Ia r3 w3 := by
   cases r3 with
   | ret ov =>
     obtain ⟨hov, hr⟩ := h
@@ -379,7 +525,7 @@ theorem BodyRes.callee {cx : Ctx} {X Xf : MCtx} {cb i bs : Nat} {st σ' : List V
     base to the caller's return point -/
 theorem body_run {P : PCtx} {fuel : Nat} (ihAll : All P fuel) {X Xf : MCtx} {f : Nat} {sd : SubDef}
     (hS : SubOK P f sd) (hP : ProgOK P)
-    (hRK : RoutOK P Xf (subCfg P sd) (subK P.fp P.p sd P.dyn) (some f))
+    (hRK : RoutOK P Xf (subCfg P sd) (subK P.fp P.p sd P.dyn P.strict) (some f))
     {fr : GFrame} {cb i bs : Nat} {σ' : List Val} {ic bcs}
     (hr0 : Xf.r = some (subLabel f)) (hcs : Xf.cs = fr :: X.cs) (hfr : fr.ret = X.r ∧ fr.pt = ⟨cb, i + 1⟩)
     (hpg : Xf.Pg = X.Pg) (hign : Xf.ign = X.ign) (hdev : Xf.dev = X.dev)
@@ -389,7 +535,7 @@ theorem body_run {P : PCtx} {fuel : Nat} (ihAll : All P fuel) {X Xf : MCtx} {f :
     BodyRes P.cx X Xf cb i bs σ' ic bcs w2 sd.hasRet r3 w3 := by
   have ihf := ihAll Xf _ _ _ hRK
   have hF := hRK.facts hP
-  have hrv : (subK P.fp P.p sd P.dyn).rv = sd.hasRet := by unfold subK; split <;> rfl
+  have hrv : (subK P.fp P.p sd P.dyn P.strict).rv = sd.hasRet := subK_rv
   -- a `Goal` of the body at the top of the routine, read from the caller's side
   have conv : ∀ {kk n}, Goal P.cx Xf bs kk none false true sd.hasRet n [] ic bcs w2 r3 w3 →
       (∀ vs, r3 = .vals vs → vs.length = (if sd.hasRet then 1 else 0) ∧
@@ -512,13 +658,18 @@ theorem pInv_bindW {sd : SubDef} {st : List Val} {w1 : World} (hlen : st.length 
     exact hnd
   rw [bindW_scratch, getSlot_bindAll _ _ _ hkeys, lookup_eq_some_of_mem _ pr.1 pr.2 hkeys hpr]
 
+/-- what the callee's activation knows about the source world (its `MCtx.inv`) -/
+def calleeInv (P : PCtx) (X : MCtx) (f : Nat) (sd : SubDef) (st : List Val) : World → Prop :=
+  if P.fp then pInv sd st else P.vinv (f :: X.act)
+
 theorem callee_run {P : PCtx} {fuel : Nat} (hP : ProgOK P) (ihAll : All P fuel) {X : MCtx} {cfg K cur}
     (hR : RoutOK P X cfg K cur)
     {f : Nat} {sd : SubDef} (hsd : findSub P.p f = some sd) (hpres : Present P f)
     {cb i : Nat} {blk : Block} (hbk : X.G[cb]? = some blk) (hx : blk.ops[i]? = some (.callsub (subLabel f)))
     {st σ' : List Val} {ic bcs} {w1 : World} (hlen : st.length = sd.params.length)
     {r3 : Res} {w3 : World} (hev : eval ⟨P.cx, P.p, some f⟩ fuel sd.body (bindW sd st w1) = (r3, w3)) :
-    CalleeGoal P.cx X cb i st σ' ic bcs w1 sd.hasRet r3 w3 := by
+    CalleeGoal P.cx X cb i st σ' ic bcs w1 sd.hasRet
+      (fun w => X.inv w ∧ calleeInv P X f sd st (bindW sd st w1)) r3 w3 := by
   have hXP := hR.pg
   have hS := hP f sd hsd hpres
   obtain ⟨G, sf, bs, hl, hpro, hsh⟩ := hS.look
@@ -529,16 +680,27 @@ theorem callee_run {P : PCtx} {fuel : Nat} (hP : ProgOK P) (ihAll : All P fuel) 
     -- scratch-slot convention
     let fr : GFrame := { ret := X.r, pt := ⟨cb, i + 1⟩, height := (st ++ σ').length }
     let Xf : MCtx := { Pg := X.Pg, r := some (subLabel f), cs := fr :: X.cs, G := G, hG := hGf,
-                       ign := X.ign, inv := noInv, base := σ', dev := X.dev, devOvf := X.devOvf }
-    have hcall : ReachS X.dev X.ign P.cx X.Pg X.inv noInv (X.st ⟨cb, i⟩ ⟨st ++ σ', ic, bcs, w1⟩)
-        (Xf.st ⟨sf, 0⟩ (Xf.onBase ⟨st, ic, bcs, w1⟩)) :=
+                       ign := X.ign, inv := P.vinv (f :: X.act), prot := X.prot, act := f :: X.act,
+                       base := σ', dev := X.dev, devOvf := X.devOvf }
+    -- the same activation without its invariant: the prologue needs none
+    let Xf0 : MCtx := { Pg := X.Pg, r := some (subLabel f), cs := fr :: X.cs, G := G, hG := hGf,
+                        ign := X.ign, inv := noInv, base := σ', dev := X.dev, devOvf := X.devOvf }
+    have hcall : ReachS X.dev X.ign P.cx X.Pg (fun w => X.inv w ∧ calleeInv P X f sd st (bindW sd st w1)) noInv
+        (X.st ⟨cb, i⟩ ⟨st ++ σ', ic, bcs, w1⟩) (Xf0.st ⟨sf, 0⟩ (Xf0.onBase ⟨st, ic, bcs, w1⟩)) :=
       fun wm hw _ _ => .inr ⟨wm, hw, trivial, .step (callsub_step hbk hx hl)⟩
     simp only [prologue, hfp, Bool.false_eq_true, if_false] at hpro
-    have hpre : ReachS X.dev X.ign P.cx X.Pg X.inv Xf.inv (X.st ⟨cb, i⟩ ⟨st ++ σ', ic, bcs, w1⟩)
-        (Xf.st ⟨bs, 0⟩ (Xf.onBase ⟨[], ic, bcs, bindW sd st w1⟩)) :=
-      hcall.trans (prologue_reach (Xf := Xf) rfl hpro hlen hS.pnodup (hS.p256 hfp))
-    have hRK : RoutOK P Xf (subCfg P sd) (subK P.fp P.p sd P.dyn) (some f) :=
-      .sub hXP hfp hsd rfl rfl rfl hR.ign rfl hR.dev
+    have hpro0 : ReachS X.dev X.ign P.cx X.Pg noInv noInv (Xf0.st ⟨sf, 0⟩ (Xf0.onBase ⟨st, ic, bcs, w1⟩))
+        (Xf0.st ⟨bs, 0⟩ (Xf0.onBase ⟨[], ic, bcs, bindW sd st w1⟩)) :=
+      prologue_reach (Xf := Xf0) rfl hpro hlen hS.pnodup (hS.p256 hfp)
+    have hpre : ReachS X.dev X.ign P.cx X.Pg (fun w => X.inv w ∧ calleeInv P X f sd st (bindW sd st w1)) Xf.inv
+        (X.st ⟨cb, i⟩ ⟨st ++ σ', ic, bcs, w1⟩) (Xf.st ⟨bs, 0⟩ (Xf.onBase ⟨[], ic, bcs, bindW sd st w1⟩)) := by
+      refine (hcall.trans hpro0).mono id (fun hi _ => ?_)
+      have := hi.2
+      unfold calleeInv at this
+      rw [hfp] at this
+      exact this
+    have hRK : RoutOK P Xf (subCfg P sd) (subK P.fp P.p sd P.dyn P.strict) (some f) :=
+      .sub hXP hfp hsd rfl rfl rfl hR.ign rfl hR.dev hR.prot (List.mem_cons_self ..)
     refine BodyRes.callee hpre (body_run ihAll hS hP hRK (fr := fr) rfl rfl ⟨rfl, rfl⟩ rfl rfl rfl hsh ?_ hev)
     intro ov _
     simp only [retStack, List.append_nil]
@@ -549,12 +711,12 @@ theorem callee_run {P : PCtx} {fuel : Nat} (hP : ProgOK P) (ihAll : All P fuel) 
     let fr : GFrame := { fr0 with proto := some (sd.params.length, if sd.hasRet then 1 else 0) }
     let X0 : MCtx := { Pg := X.Pg, r := some (subLabel f), cs := fr0 :: X.cs, G := G, hG := hGf }
     let Xf : MCtx := { Pg := X.Pg, r := some (subLabel f), cs := fr :: X.cs, G := G, hG := hGf,
-                       ign := X.ign, inv := pInv sd st, base := st ++ σ', dev := X.dev,
+                       ign := X.ign, inv := pInv sd st, prot := X.prot, base := st ++ σ', dev := X.dev,
                        devOvf := X.devOvf }
     simp only [prologue, hfp, if_true] at hpro
     unfold Blk at hpro
-    have hpre : ReachS X.dev X.ign P.cx X.Pg X.inv Xf.inv (X.st ⟨cb, i⟩ ⟨st ++ σ', ic, bcs, w1⟩)
-        (Xf.st ⟨bs, 0⟩ (Xf.onBase ⟨[], ic, bcs, bindW sd st w1⟩)) := by
+    have hpre : ReachS X.dev X.ign P.cx X.Pg (fun w => X.inv w ∧ calleeInv P X f sd st (bindW sd st w1)) Xf.inv
+        (X.st ⟨cb, i⟩ ⟨st ++ σ', ic, bcs, w1⟩) (Xf.st ⟨bs, 0⟩ (Xf.onBase ⟨[], ic, bcs, bindW sd st w1⟩)) := by
       intro wm hw _ _
       refine .inr ⟨wm, ⟨fun x hx => ?_, ?_⟩, pInv_bindW hlen hS.pnodup, ?_⟩
       · -- the binding only writes ignored slots
@@ -576,8 +738,8 @@ theorem callee_run {P : PCtx} {fuel : Nat} (hP : ProgOK P) (ihAll : All P fuel) 
         have s3 := step_exit (cx := P.cx) (X := Xf) (b := sf) (i := 1) (k := bs) (m := ⟨st ++ σ', ic, bcs, wm⟩)
           hpro rfl rfl
         exact (ReachP.step s1).trans ((ReachP.step s2).trans (ReachP.step s3))
-    have hRK : RoutOK P Xf (subCfg P sd) (subK P.fp P.p sd P.dyn) (some f) :=
-      .subFp hXP hfp hsd rfl rfl rfl rfl hlen rfl hR.ign rfl hR.dev
+    have hRK : RoutOK P Xf (subCfg P sd) (subK P.fp P.p sd P.dyn P.strict) (some f) :=
+      .subFp hXP hfp hsd rfl rfl rfl rfl hlen rfl hR.ign rfl hR.dev hR.prot
     refine BodyRes.callee hpre (body_run ihAll hS hP hRK (fr := fr) rfl rfl ⟨rfl, rfl⟩ rfl rfl rfl hsh ?_ hev)
     intro ov hov
     simp only [retStack, List.append_nil]
@@ -634,10 +796,20 @@ def CallInv (P : PCtx) : Prop :=
   ∀ X cfg K cur, RoutOK P X cfg K cur → ∀ f sd st w1 fuel r3 w3, findSub P.p f = some sd →
     callAllowed K f = true → st.length = sd.params.length →
     eval ⟨P.cx, P.p, some f⟩ fuel sd.body (bindW sd st w1) = (r3, w3) →
-    X.inv w1 → X.inv (restoreW (srcLocals P.p cur f) w1 w3)
+    X.inv w1 → calleeInv P X f sd st (bindW sd st w1) → X.inv (restoreW (srcLocals P.p cur f) w1 w3)
+
+/-- the callee's invariant holds when its body starts (frame-pointer convention: the parameter
+    cells hold the arguments; by-reference discipline: the arguments passed for by-reference
+    parameters are valid references, given the caller's invariant before the arguments are
+    evaluated) -/
+def CallEntry (P : PCtx) : Prop :=
+  ∀ X cfg K cur, RoutOK P X cfg K cur → ∀ f sd args bc rc n st w w1 fuel, findSub P.p f = some sd → Present P f →
+    wtR K bc rc n (.call f args) = true → st.length = sd.params.length →
+    evalArgs ⟨P.cx, P.p, cur⟩ fuel args w [] = (.vals st, w1) → X.inv w →
+    calleeInv P X f sd st (bindW sd st w1)
 
 theorem case_call {P : PCtx} {fuel : Nat} (hP : ProgOK P) (hC : CallPresent P) (hF : FrameProvider P)
-    (hI : CallInv P) (ihAll : All P fuel)
+    (hI : CallInv P) (hEnt : CallEntry P) (ihAll : All P fuel)
     {X : MCtx} {cfg : RCfg} {K : RK} {cur : Option Nat} (hR : RoutOK P X cfg K cur)
     (ih : AllX X cfg K ⟨P.cx, P.p, cur⟩ fuel)
     {f args ce s cb k L bc rc n σ ic bcs w r w'}
@@ -646,6 +818,7 @@ theorem case_call {P : PCtx} {fuel : Nat} (hP : ProgOK P) (hC : CallPresent P) (
     (h : eval ⟨P.cx, P.p, cur⟩ (fuel + 1) (.call f args) w = (r, w')) :
     Goal P.cx X s k L bc rc K.rv n σ ic bcs w r w' := by
   have hf' := hf
+  have hw0 := hw
   rw [hR.callees, callees_find] at hf'
   cases hsd : findSub P.p f with
   | none => rw [hsd] at hf'; cases hf'
@@ -655,7 +828,7 @@ theorem case_call {P : PCtx} {fuel : Nat} (hP : ProgOK P) (hC : CallPresent P) (
     simp only [wtR, hR.kcallees] at hw
     rw [← hR.callees, hf] at hw
     simp only [Bool.and_eq_true, beq_iff_eq] at hw
-    obtain ⟨⟨⟨hnargs, hn⟩, hallow⟩, hwa⟩ := hw
+    obtain ⟨⟨⟨⟨hnargs, hn⟩, hallow⟩, hwa⟩, _⟩ := hw
     have hce1 : ce.nArgs = sd.params.length := by rw [← hf']; rfl
     have hce2 : ce.hasRet = sd.hasRet := by rw [← hf']; rfl
     simp only [eval, hsd] at h
@@ -671,9 +844,12 @@ theorem case_call {P : PCtx} {fuel : Nat} (hP : ProgOK P) (hC : CallPresent P) (
         hF X cfg K cur hR f ce cb k st (σ ++ X.base) ic bcs w1 hf hb (by omega)
       simp only [List.length_reverse, hlen', ne_eq, not_true_eq_false, if_false] at h
       rcases hbody : eval ⟨P.cx, P.p, some f⟩ fuel sd.body (bindW sd st w1) with ⟨r3, w3⟩
+      have hpresent := hC X cfg K cur hR f ce cb k hf hb
       have cg := callee_run (σ' := rest) (ic := ic) (bcs := bcs) hP ihAll hR hsd
-        (hC X cfg K cur hR f ce cb k hf hb) hbk hx hlen' hbody
+        hpresent hbk hx hlen' hbody
       have hinv := hI X cfg K cur hR f sd st w1 fuel r3 w3 hsd hallow hlen' hbody
+      have hE : X.inv w → calleeInv P X f sd st (bindW sd st w1) := fun hi =>
+        hEnt X cfg K cur hR f sd args bc rc n st w w1 fuel hsd hpresent hw0 hlen' hev hi
       have hbody' := hbody
       simp only [bindW] at hbody'
       rw [hbody'] at h
@@ -683,19 +859,21 @@ theorem case_call {P : PCtx} {fuel : Nat} (hP : ProgOK P) (hC : CallPresent P) (
         have := hr
         simp only [ReachO, MCtx.onBase, List.append_assoc] at this
         exact this
-      have hpre : ReachS X.dev X.ign P.cx X.Pg X.inv X.inv (X.st ⟨s, 0⟩ (X.onBase ⟨σ, ic, bcs, w⟩))
-          (X.st ⟨cb, i⟩ ⟨st ++ rest, ic, bcs, w1⟩) := ReachS.trans hr' hBefore
+      have hpre : ReachS X.dev X.ign P.cx X.Pg X.inv (fun w' => X.inv w' ∧ calleeInv P X f sd st (bindW sd st w1))
+          (X.st ⟨s, 0⟩ (X.onBase ⟨σ, ic, bcs, w⟩)) (X.st ⟨cb, i⟩ ⟨st ++ rest, ic, bcs, w1⟩) :=
+        (ReachS.trans hr' hBefore).mono id (fun hi hi' => ⟨hi', hE hi⟩)
       have hnret : ∀ rets : List Val, rets.length = (if sd.hasRet then 1 else 0) →
           rets.length = (if ce.hasRet then 1 else 0) := by intro rets hh; rw [hce2]; exact hh
       -- the normal return: through the callee, then the restore, re-establishing the invariant
       have finish : ∀ rets : List Val, rets.length = (if sd.hasRet then 1 else 0) →
-          ReachS X.dev X.ign P.cx X.Pg X.inv noInv (X.st ⟨cb, i⟩ ⟨st ++ rest, ic, bcs, w1⟩)
-            (X.st ⟨cb, i + 1⟩ ⟨rets ++ rest, ic, bcs, w3⟩) →
+          ReachS X.dev X.ign P.cx X.Pg (fun w' => X.inv w' ∧ calleeInv P X f sd st (bindW sd st w1)) noInv
+            (X.st ⟨cb, i⟩ ⟨st ++ rest, ic, bcs, w1⟩) (X.st ⟨cb, i + 1⟩ ⟨rets ++ rest, ic, bcs, w3⟩) →
           ReachO P.cx X ⟨s, 0⟩ ⟨σ, ic, bcs, w⟩ ⟨k, 0⟩
             ⟨rets ++ σ, ic, bcs, restoreW (srcLocals P.p cur f) w1 w3⟩ := by
         intro rets hrl hR3
-        have h2 := (ReachS.trans hR3 (hAfter rets w3 (hnret rets hrl))).mono (Ia' := X.inv) (Ib' := X.inv) id
-          (fun hi _ => hinv hi)
+        have h2 := (ReachS.trans hR3 (hAfter rets w3 (hnret rets hrl))).mono
+          (Ia' := fun w' => X.inv w' ∧ calleeInv P X f sd st (bindW sd st w1)) (Ib' := X.inv) id
+          (fun hi _ => hinv hi.1 hi.2)
         have h3 := ReachS.trans hpre h2
         simp only [ReachO, MCtx.onBase, List.append_assoc]
         exact h3
@@ -740,7 +918,8 @@ theorem case_call {P : PCtx} {fuel : Nat} (hP : ProgOK P) (hC : CallPresent P) (
 
 /-- **Semantic half for whole programs.**  Every routine graph of the program matches `Src.eval`
     (all five mutually recursive evaluators, all routines, all call stacks). -/
-theorem sound_all {P : PCtx} (hP : ProgOK P) (hC : CallPresent P) (hF : FrameProvider P) (hI : CallInv P) :
+theorem sound_all {P : PCtx} (hP : ProgOK P) (hC : CallPresent P) (hF : FrameProvider P) (hI : CallInv P)
+    (hEnt : CallEntry P) :
     ∀ fuel, All P fuel := by
   intro fuel
   induction fuel using Nat.strongRecOn with
@@ -757,7 +936,7 @@ theorem sound_all {P : PCtx} (hP : ProgOK P) (hC : CallPresent P) (hF : FramePro
         ev := fun e s k L bc rc n σ ic bcs w r w' hs hw h =>
           step_ev (hR.facts hP) ihs
             (fun f' args ce s cb k L bc rc n σ ic bcs w r w' hf hb ha hw h =>
-              case_call hP hC hF hI ihAll hR ihf hf hb ha hw h) hs hw h
+              case_call hP hC hF hI hEnt ihAll hR ihf hf hb ha hw h) hs hw h
         args := fun es s k L acc σ ic bcs w r w' ha hw h => step_args ihf ha hw h
         seq := fun es s k L bc rc n σ ic bcs w r w' hs hw h => step_seq ihf hs hw h
         cond := fun arms s endB errB L bc rc n σ ic bcs w r w' hs herr hw h => step_cond ihf hs herr hw h
